@@ -150,3 +150,32 @@ func TestT1IncoherentLibRefeedDelivers(t *testing.T) {
 		t.Fatalf("libs got  %v\nwant %v", libs, wantLibs)
 	}
 }
+
+// Witness 3 of coq/Properties/C01_Wild.v (c01_wild_discovery_refeed_witness): the hub's configuration (no LIB
+// configured, HoldBlocksUntilLIB).  G = (1, num 10, parent 9, lib 10) declares its own height: it becomes the LIB
+// (New + Irreversible); then the history of witness 1.
+func TestT1WildLibRefeedDeliversDiscovery(t *testing.T) {
+	old := bstream.GetProtocolFirstStreamableBlock
+	bstream.GetProtocolFirstStreamableBlock = 12
+	defer func() { bstream.GetProtocolFirstStreamableBlock = old }()
+
+	got, libs := t1run(t, []t1blk{{1, 10, 9, 10}, t1B, t1A, t1X, t1C, t1X},
+		HoldBlocksUntilLIB(), WithFilters(t1all), WithKeptFinalBlocks(2), EnsureAllBlocksTriggerLongestChain())
+	want := [][]string{
+		{"new:1", "irreversible:1"},
+		{},
+		{"new:2", "irreversible:2"},
+		{},
+		{"new:3", "new:4", "irreversible:3"},
+		{"undo:4", "new:5"},
+	}
+	wantLibs := []string{"1@10", "1@10", "2@14", "2@14", "3@12", "3@12"}
+	t.Logf("events %v", got)
+	t.Logf("LIB after each call %v", libs)
+	if !reflect.DeepEqual(got, want) {
+		t.Fatalf("got  %v\nwant %v", got, want)
+	}
+	if !reflect.DeepEqual(libs, wantLibs) {
+		t.Fatalf("libs got  %v\nwant %v", libs, wantLibs)
+	}
+}
